@@ -1,6 +1,7 @@
 package c09
 
 import (
+	"bytes"
 	"context"
 	"encoding/xml"
 	"errors"
@@ -311,6 +312,9 @@ type helper struct {
 
 // helperCase runs h against a peer that answers the first IQ request with
 // <iq type=typ id=…>reply</iq>.
+// errorPageMark in front of a page makes the peer send that page as an error reply.
+const errorPageMark = "\x00E"
+
 func helperCase(h *helper, typ string, reply []byte) outcome {
 	return helperPages(h, typ, [][]byte{reply})
 }
@@ -355,7 +359,12 @@ func helperPages(h *helper, typ string, pages [][]byte) outcome {
 			answered++
 			var b strings.Builder
 			if answered <= maxReplies {
-				fmt.Fprintf(&b, `<iq xmlns="jabber:client" type="%s" id="%s" from="example.net">`, typ, esc(id))
+				ptyp := typ
+				if bytes.HasPrefix(page, []byte(errorPageMark)) {
+					// this page is an error reply
+					ptyp, page = "error", page[len(errorPageMark):]
+				}
+				fmt.Fprintf(&b, `<iq xmlns="jabber:client" type="%s" id="%s" from="example.net">`, ptyp, esc(id))
 				b.Write(page)
 			} else {
 				fmt.Fprintf(&b, `<iq xmlns="jabber:client" type="error" id="%s" from="example.net">`, esc(id))
@@ -525,6 +534,66 @@ var helpers = []*helper{
 		call: func(ctx context.Context, s *xmpp.Session) {
 			_, _ = history.FetchIQ(ctx, history.Query{ID: "q"}, iqTo, s)
 		}},
+}
+
+// cmdForEach: an ad-hoc command conversation through Command.ForEach; the callback answers
+// every step with the given action.
+func cmdForEach(action string) func(ctx context.Context, s *xmpp.Session) {
+	return func(ctx context.Context, s *xmpp.Session) {
+		steps := 0
+		_ = commands.Command{JID: remote, Node: "list"}.ForEach(ctx, nil, s, func(r commands.Response, p xml.TokenReader) (commands.Command, xml.TokenReader, error) {
+			steps++
+			if action != "nodrain" {
+				drain(p)
+			}
+			if steps > 6 {
+				return r.Cancel(), nil, nil
+			}
+			switch action {
+			case "cancel":
+				return r.Cancel(), nil, nil
+			case "complete":
+				return r.Complete(), nil, nil
+			case "prev":
+				return r.Prev(), nil, nil
+			case "err":
+				return commands.Command{}, nil, errors.New("application error in the callback")
+			case "stop":
+				return commands.Command{}, nil, nil
+			}
+			return r.Next(), nil, nil
+		})
+	}
+}
+
+// cmdExecuteChain: the same conversation step by step through Execute.
+func cmdExecuteChain(ctx context.Context, s *xmpp.Session) {
+	c := commands.Command{JID: remote, Node: "list"}
+	for i := 0; i < 4; i++ {
+		resp, r, err := c.Execute(ctx, nil, s)
+		if err != nil {
+			return
+		}
+		if r != nil {
+			drain(r)
+			_ = r.Close()
+		}
+		if resp.Status != "executing" {
+			return
+		}
+		if i == 2 {
+			c = resp.Cancel()
+		} else {
+			c = resp.Next()
+		}
+	}
+}
+
+func init() {
+	for _, a := range []string{"next", "cancel", "complete", "prev", "err", "stop", "nodrain"} {
+		helpers = append(helpers, &helper{name: "commands.ForEach." + a, templates: []string{``}, call: cmdForEach(a)})
+	}
+	helpers = append(helpers, &helper{name: "commands.ExecuteChain", templates: []string{``}, call: cmdExecuteChain})
 }
 
 const errPayload = `<error type="cancel"><item-not-found xmlns="urn:ietf:params:xml:ns:xmpp-stanzas"/><text xmlns="urn:ietf:params:xml:ns:xmpp-stanzas" xml:lang="en">gone</text></error>`
